@@ -90,6 +90,31 @@ add("C12", "sched", "model_checking",
     "Schedules are the partitions / commit batches / reopen points the property names; OS-thread interleavings inside update() are not explored. "
     "Trusted: the dump hook and the projection that drops timing and commit bookkeeping.", "DESIGN.md sections 4 (E2) and 5 C12")
 
+add("C14", "reorg", "model_checking",
+    "explicit-state BFS of an abstract savepoint/reorg machine plus conformance replay of every explored Update transition on the real Index",
+    "The machine (node chain, committed index chain, persistent savepoints, LastSavepointHeight, unrecoverable flag) is transcribed from Index::update / Updater::update_index / "
+    "Reorg::* and explored exhaustively (events Mine(n), Reorg(invalidate k, mine k+e), Update) for several (savepoint interval, max savepoints, commit interval) with block-id "
+    "canonicalisation; invariants: update terminates, Ok => index chain = node chain, unrecoverable => flagged. Every explored Update transition within the conformance depth is "
+    "replayed on the real Index: outcome, rollback count, height, hash per height, savepoint count, LastSavepointHeight and status flag must match the model, and a fully indexed chain "
+    "must have the content of a from-scratch index.",
+    "mockcore reports headers=0, so the far-from-tip branch of is_savepoint_required is only in the model. A best-chain switch always yields a strictly longer chain. "
+    "Trusted: the model transcription (bound to the code by the conformance replay) and the rollback-budget knob that turns a non-terminating retry loop into a verdict.",
+    "DESIGN.md sections 4 (E4) and 5 C14")
+add("C15", "chain", "model_checking",
+    "stateless deviation-bounded exhaustive exploration of block histories x exhaustive enumeration of index configurations, differential on the inscription/rune projection",
+    "Every history of the inscription and rune suites with <=K deviations is indexed under all 8 combinations of {index-sats, index-addresses, index-transactions} plus the node-fetch "
+    "configuration (first inscription height moved past the setup prefix, so spent values are fetched from the node); ids, numbers, satpoints, parents, fees, heights, non-sat-derived "
+    "charms, rune entries and balances must be identical after every block.",
+    CHAIN_NOTE + " The node-fetch path is reached through a guarded thread-local knob overriding Settings::first_inscription_height.", "DESIGN.md section 5 C15")
+for _pid,_what,_ref in [("C25","runestone round trip over edict lists x etching fields x all 64 terms subsets; decipher of ALL integer sequences up to length 5/6 over a 23-symbol alphabet, ALL byte strings <=3 after OP_RETURN OP_13, against an independent decipher computing the first flaw in the documented order","C25"),
+  ("C27","envelope build->parse round trip over all field subsets x size lattice x parents x batches; ALL byte strings <=3 and opcode-token sequences as tapscripts, witnesses of 0..4 elements, against a reference scanner; compact pointer/id encodings over boundary lattices","C27"),
+  ("C28","properties inline/packed/brotli round trips over gallery x title x trait lattices, ALL byte strings <=2/3 and CBOR token sequences as decoder input, and decompression-bound cases on both sides of min(30 x compressed, 4,000,000)","C28"),
+  ("C35","store->load of sat ranges (start lattice x length lattice), output entries in all 8 flag configurations through real Index instances, merged() of pseudo-output entries, rune balance lists with every truncation, rune / inscription entries over boundary lattices, outpoints, satpoints, headers","C35")]:
+    add(_pid, "codec", "exploration", "bounded-exhaustive input enumeration against an independent reference / round-trip identity",
+        "Complete enumeration of the stated finite input space executed against the real functions: " + _what + ".",
+        "Inputs outside the stated alphabets / lattices are not covered. Trusted: the reference evaluators written in the harness and the thin pub wrappers behind feature verif.",
+        "DESIGN.md section 5 " + _ref)
+
 NOT_YET = "check not built yet in this round (see DESIGN.md build order); not claimed"
 
 def main():
